@@ -31,6 +31,32 @@ theorem no_connection_means_handshake (cfg : Cfg) (w : World) (h : w.conn = none
     ensureConn cfg w = connect cfg w := by
   unfold ensureConn; simp [h]
 
+/-- **The handshake vets or drops.** `connect` reports success only on the single path on which registration
+(configured password and currency) AND the identity query were answered AND the serial number matched; on
+every other path (refused, silent, NACK, undecodable or unexpected reply, different serial) no connection is
+left behind. A successful handshake always yields a connection with the next unused identity — never one
+that existed before. -/
+theorem handshake_vets_or_drops (cfg : Cfg) (w : World) :
+    ((connect cfg w).2 = true → ∃ c, (connect cfg w).1.conn = some c ∧ c.id = w.logs.length) ∧
+    ((connect cfg w).2 = false → (connect cfg w).1.conn = none ∨ (connect cfg w).1.conn = w.conn) :=
+  connect_outcome cfg w
+
+/-- **After a failure the next attempt runs on a fresh, vetted connection**: with no live connection, an
+attempt can only start (`ensureConn … = (_, true)`) on a connection created by a successful handshake, and its
+identity is new (the number of connections opened so far), so the abandoned one is never picked up again. -/
+theorem reconnect_is_fresh (cfg : Cfg) (w : World) (h : w.conn = none) (hok : (ensureConn cfg w).2 = true) :
+    ∃ c, (ensureConn cfg w).1.conn = some c ∧ c.id = w.logs.length := by
+  rw [no_connection_means_handshake cfg w h] at hok ⊢
+  exact (connect_outcome cfg w).1 hok
+
+/-- … and if the handshake fails there is still no connection (the retry loop tries again or gives up). -/
+theorem failed_handshake_leaves_none (cfg : Cfg) (w : World) (h : w.conn = none) (hf : (ensureConn cfg w).2 = false) :
+    (ensureConn cfg w).1.conn = none := by
+  rw [no_connection_means_handshake cfg w h] at hf ⊢
+  rcases (connect_outcome cfg w).2 hf with h1 | h1
+  · exact h1
+  · rw [h1]; exact h
+
 /-- inside an exchange the client never switches connections. -/
 theorem same_connection_within_exchange (d : SeqDesc) (w : World) (c : ConnSt) (st : SeqSt) :
     (seqNext d w c st).2.2.1.id = c.id := (seqNext_conn d w c st).2
